@@ -4,6 +4,9 @@ from __future__ import annotations
 import json
 
 import datetime as dt
+import os
+
+os.environ.setdefault("TQDM_DISABLE", "1")   # silence the mapper progress bars (display only)
 
 from harness import common as C
 from harness import dfgen as G
@@ -14,7 +17,10 @@ HEADER = M.HEADER
 MODEL_TARGETS = M.MODEL_TARGETS
 SHARD = 60
 STYPES = ["numerical", "categorical", "multicategorical", "sequence_numerical", "timestamp", "embedding"]
-RULE = ("DataFrames of 1-10 rows with 1-7 columns drawn from six stypes (+ numerical/categorical target), "
+RULE = ("(+ embedding-family frames: 1-3 plain embedding columns next to text_/image_embedded columns with stub "
+        "embedders, every cell read by name through col_names_dict and get_col_feat) (+ histories: a sibling frame encoded with the statistics of an earlier dataset, integer-coded categorical "
+        "columns held as int64 / float64-with-NaN / object independently on both sides, via materialize(col_stats=) "
+        "and via the fitted converter) DataFrames of 1-10 rows with 1-7 columns drawn from six stypes (+ numerical/categorical target), "
         "missing patterns, both pandas string dtypes (object, str), separators/time formats, five index labelings, "
         "list-valued multicategorical cells with string or integer tokens (low rate: including the integer -1, the "
         "known finding); distinct = distinct (stype multiset, dtypes, n, missing pattern signature); non-trivial = "
@@ -59,7 +65,7 @@ def vary(case, rng):
         if col["stype"] == "multicategorical" and col["sep"] is None and rng.chance(0.35):
             # list-valued cells with INTEGER tokens; at low rate the pool contains -1 (known finding)
             ints = rng.sample([0, 1, 2, 3, 7, 12, -2, -5], len(G.TOKENS))
-            if rng.chance(0.2):
+            if rng.chance(0.4):
                 ints[rng.randrange(len(ints))] = -1
             m = dict(zip(G.TOKENS, ints))
             col["cells"] = [c if c is None else [m[t] for t in c] for c in col["cells"]]
@@ -75,6 +81,21 @@ def vary(case, rng):
         if rng.chance(0.3):
             ws = rng.pick(WS_VARIANTS)
             col["cells"] = [c if c is None else c.replace(" ", ws, rng.randint(1, 2)) for c in col["cells"]]
+    return case
+
+
+def unlabel(case, rng):
+    """missing TARGET cells also in the first / last / every row (dfgen's target_missing keeps the leading cells):
+    a missing target cell is encoded like any missing cell, NaN / -1 in y"""
+    tgt = next((c for c in case["cols"] if c["name"] == case["target"]), None)
+    if tgt is None or not rng.chance(0.15):
+        return case
+    n = case["n"]
+    idx = rng.pick([[0], [n - 1], list(range(n)) if tgt["stype"] == "numerical" else [n - 1]])
+    new = [None if i in idx else v for i, v in enumerate(tgt["cells"])]
+    if tgt["stype"] == "categorical" and len({str(v) for v in new if v is not None}) < 1:
+        return case
+    tgt["cells"] = new
     return case
 
 
@@ -149,10 +170,150 @@ def gen_malformed(rng):
             "col_order": ["alpha", "beta"], "malformed": kind}
 
 
+FAMILY_NAMES = ["alpha", "beta", "gamma", "delta", "eps", "zeta", "eta", "theta", "iota", "kappa", "Alpha", "Zeta"]
+
+
+def gen_family(rng):
+    """The embedding family in one frame: 1-3 plain `embedding` columns (widths different from the embedders'
+    widths 3 and 2), 1-3 text_embedded and 0-3 image_embedded columns (the user callables are dfgen's stubs), plus
+    sometimes a numerical column / target.  _merge_feat puts all of them under stype.embedding; each cell is read
+    BY NAME through the frame's own col_names_dict and through get_col_feat."""
+    n = rng.randint(1, 6)
+    kinds = (["embedding"] * rng.randint(1, 3) + ["text_embedded"] * rng.randint(1, 3) +
+             ["image_embedded"] * rng.randint(0, 3) + ["numerical"] * rng.randint(0, 1))
+    names = rng.sample(FAMILY_NAMES, len(kinds) + 1)
+    cols = []
+    for name, st in zip(names, kinds):
+        col = G.gen_col(rng, name, st, n, rng.pick([0.0, 0.2]))
+        while st == "embedding" and col["width"] in (2, 3):
+            col = G.gen_col(rng, name, st, n, 0.0)
+        cols.append(col)
+    target = None
+    if rng.chance(0.4):
+        cols.append(G.gen_col(rng, names[-1], rng.pick(["numerical", "categorical"]), n, 0.0, for_target=True))
+        target = names[-1]
+    order = [c["name"] for c in cols]
+    rng.shuffle(order)
+    return {"n": n, "index": rng.pick(["range", "offset", "perm", "string", "dup"]), "cols": cols, "target": target,
+            "col_order": order, "family": True}
+
+
+INT_DTYPES = ["int64", "float64", "object"]
+
+
+def gen_sibling(rng):
+    """A HISTORY: dataset A is materialized, then a sibling frame B with the same columns is encoded with A's
+    statistics (materialize(col_stats=A.col_stats) and A.convert_to_tensor_frame(df_B)).  The integer-coded
+    categorical columns (features and target) are held by pandas as int64, as float64 (the only way a numeric
+    column can hold a missing cell) or as object, independently in A and B: the value 1 is category 1 whichever
+    way pandas holds it.  B also contains values A never saw (-> -1)."""
+    na, nb = rng.randint(2, 6), rng.randint(1, 6)
+    names = rng.sample(["alpha", "beta", "gamma", "delta", "eps", "zeta"], 4)
+    cols = []
+    k = rng.randint(1, 3)
+    for i in range(k):
+        pool = rng.sample(range(-3, 12), rng.randint(2, 4))
+        is_target = (i == 0 and rng.chance(0.5))
+        da, db = rng.pick(INT_DTYPES), rng.pick(INT_DTYPES)
+        ca = [rng.pick(pool) for _ in range(na)]
+        ca[0], ca[1] = pool[0], pool[1]                      # >= 2 classes in A
+        if da != "int64" and not is_target:
+            ca = [None if rng.chance(0.2) and j > 1 else v for j, v in enumerate(ca)]
+        cb = [rng.pick(pool + [rng.randint(20, 25)]) if rng.chance(0.9) else rng.randint(20, 25) for _ in range(nb)]
+        if db != "int64":
+            cb = [None if rng.chance(0.3) else v for v in cb]
+            if all(v is not None for v in cb):
+                cb[rng.randrange(nb)] = None             # a missing cell: pandas holds the column as float64
+        cols.append({"name": names[i], "stype": "categorical", "dtype": "object", "dtype_a": da, "dtype_b": db,
+                     "cells_a": ca, "cells_b": cb, "sep": None, "fmt": None, "width": None, "is_target": is_target})
+    cols.append({"name": names[3], "stype": "numerical", "dtype": "float", "dtype_a": "float64", "dtype_b": "float64",
+                 "cells_a": [G.dyadic(rng) for _ in range(na)],
+                 "cells_b": [None if rng.chance(0.2) else G.dyadic(rng) for _ in range(nb)],
+                 "sep": None, "fmt": None, "width": None, "is_target": False})
+    target = next((c["name"] for c in cols if c["is_target"]), None)
+    order = [c["name"] for c in cols]
+    rng.shuffle(order)
+    return {"kind": "sibling", "n_a": na, "n_b": nb, "cols": cols, "target": target, "col_order": order,
+            "index_b": rng.pick(["range", "offset", "dup", "string"])}
+
+
+def sibling_series(cells, dtype):
+    import numpy as np
+    import pandas as pd
+    if dtype == "int64":
+        return pd.Series([int(c) for c in cells], dtype="int64")
+    if dtype == "float64":
+        return pd.Series([np.nan if c is None else float(c) for c in cells], dtype="float64")
+    return pd.Series([None if c is None else c for c in cells], dtype=object)
+
+
+def run_sibling(case):
+    import pandas as pd
+    import torch_frame
+    from torch_frame.data import Dataset
+    by = {c["name"]: c for c in case["cols"]}
+    dfa = pd.DataFrame({n: sibling_series(by[n]["cells_a"], by[n]["dtype_a"]) for n in case["col_order"]})
+    dfb = pd.DataFrame({n: sibling_series(by[n]["cells_b"], by[n]["dtype_b"]) for n in case["col_order"]})
+    labels = G.index_labels(case["index_b"], case["n_b"])
+    if labels is not None:
+        dfb.index = labels
+    c2s = {n: getattr(torch_frame, by[n]["stype"]) for n in case["col_order"]}
+    out = {"ok": True}
+    try:
+        A = Dataset(dfa, c2s, target_col=case["target"]).materialize()
+        out["stats_a"] = G.read_stats(A.col_stats)
+    except Exception as ex:
+        return {"ok": False, "exc": C.exc_name(ex), "msg": "dataset A: " + str(ex)[:300], "tb": C.fmt_exc()}
+    for tag, f in (("col_stats", lambda: Dataset(dfb, c2s, target_col=case["target"]).materialize(
+                        col_stats={k: dict(v) for k, v in A.col_stats.items()}).tensor_frame),
+                   ("converter", lambda: A.convert_to_tensor_frame(dfb))):
+        try:
+            out[tag] = {"ok": True, "tf": G.read_tf(f())}
+        except Exception as ex:
+            out[tag] = {"ok": False, "exc": C.exc_name(ex), "msg": str(ex)[:300], "tb": C.fmt_exc()}
+    return out
+
+
+def sibling_cols(case):
+    """the columns of frame B as dfgen-style column descriptions (cells = B's cells)"""
+    return [dict(c, cells=c["cells_b"]) for c in case["cols"]]
+
+
+def oracle_sibling(case, obs):
+    if not obs["ok"]:
+        return dict(key=f"sibling-raises:{obs['exc']}", what=f"materializing dataset A raised {obs['exc']}: {obs['msg']}")
+    for tag in ("col_stats", "converter"):
+        o = obs[tag]
+        how = "materialize(col_stats=A.col_stats)" if tag == "col_stats" else "A.convert_to_tensor_frame(df_B)"
+        if not o["ok"]:
+            return dict(key=f"sibling-{tag}-raises:{o['exc']}", what=f"{how} raised {o['exc']}: {o['msg']}", tb=o.get("tb"))
+        tfj = o["tf"]
+        if tfj["num_rows"] != case["n_b"]:
+            return dict(key="sibling-num-rows", what=f"{how}: {tfj['num_rows']} rows for {case['n_b']}")
+        for col in sibling_cols(case):
+            stats = obs["stats_a"].get(col["name"], {})
+            rep_ = f"held as {col['dtype_b']}, statistics from a column held as {col['dtype_a']}"
+            for i, cell in enumerate(col["cells"]):
+                exp = G.expected_cell(col, cell, stats)
+                if col["name"] == case["target"]:
+                    got = None if tfj["y"] is None else [tfj["y"][i]]
+                else:
+                    loc = locate(tfj, col)
+                    got = None if loc is None else tfj["feats"][loc[0]][i][loc[1]]
+                if got != exp:
+                    return dict(key=f"sibling-cell:{col['stype']}:{tag}",
+                                what=f"{how}: row {i} of column {col['name']} ({rep_}) raw {cell!r} encoded as {got}; with "
+                                     f"A's categories {stats.get('COUNT', [None])[0]} the canonical encoding is {exp}",
+                                col=col["name"], row=i)
+    return None
+
+
 def generate(rng, tier):
     n = 420 if tier == "quick" else 6000
-    cases = [vary(G.gen_frame(rng, stypes=STYPES), rng) for _ in range(n)]
+    cases = [vary(unlabel(G.gen_frame(rng, stypes=STYPES, target_missing=0.3), rng), rng) for _ in range(n)]
     cases += [gen_malformed(rng) for _ in range(n // 40)]
+    cases += [gen_sibling(rng) for _ in range(n // 10)]
+    cases += [gen_family(rng) for _ in range(n // 8)]
     cases += [gen_calendar(rng) for _ in range(25 if tier == "quick" else 400)]
     if tier == "thorough":
         cases += calendar_sweep(rng)
@@ -188,6 +349,8 @@ def malformed_df(case):
 
 
 def run(case):
+    if case.get("kind") == "sibling":
+        return run_sibling(case)
     if case.get("kind") == "calendar":
         try:
             return run_calendar(case)
@@ -195,13 +358,28 @@ def run(case):
             return {"ok": False, "exc": C.exc_name(ex), "msg": str(ex)[:300], "tb": C.fmt_exc()}
     try:
         df = malformed_df(case) if case.get("malformed") else None
-        ds, _ = G.build_dataset(case, df=df)
+        ds, stubs = G.build_dataset(case, df=df)
         # the black box of the timestamp pipeline, recorded for the correspondence
         parsed = {c["name"]: M.parse_timestamps(ds.df, c) for c in case["cols"] if c["stype"] == "timestamp"}
         ds.materialize()
     except Exception as ex:
         return {"ok": False, "exc": C.exc_name(ex), "msg": str(ex)[:300], "tb": C.fmt_exc()}
-    return {"ok": True, "tf": G.read_tf(ds.tensor_frame), "stats": G.read_stats(ds.col_stats), "parsed": parsed}
+    # black box: what the user's embedders returned, cell by cell (recorded for the correspondence)
+    embedded = {}
+    for c in case["cols"]:
+        if c["stype"] in ("text_embedded", "image_embedded"):
+            w = 3 if c["stype"] == "text_embedded" else 2
+            embedded[c["name"]] = [G.hash_vec(str(x), w) for batch in stubs[c["name"]].calls for x in batch]
+    # every column the frame lists, read BY NAME
+    by_name = {}
+    for names in ds.tensor_frame.col_names_dict.values():
+        for name in names:
+            try:
+                by_name[name] = G.read_feat(ds.tensor_frame.get_col_feat(name))
+            except Exception as ex:
+                by_name[name] = {"exc": C.exc_name(ex), "msg": str(ex)[:200]}
+    return {"ok": True, "tf": G.read_tf(ds.tensor_frame), "stats": G.read_stats(ds.col_stats), "parsed": parsed,
+            "embedded": embedded, "by_name": by_name}
 
 
 KNOWN_MINUS_ONE = "multicat-int-token-minus-one-aliases-missing"
@@ -227,6 +405,8 @@ def oracle(case, obs):
         return dict(key="harness-exc", what=obs["harness_exc"], tb=obs.get("tb"))
     if case.get("kind") == "calendar":
         return oracle_calendar(case, obs)
+    if case.get("kind") == "sibling":
+        return oracle_sibling(case, obs)
     if case.get("malformed"):
         return None            # outside the quantifier: nothing is demanded (see gen_malformed)
     if not obs["ok"]:
@@ -252,8 +432,16 @@ def oracle(case, obs):
             return dict(key="column-missing", what=f"column {col['name']} not in the TensorFrame")
         st, j = loc
         feat = tfj["feats"][st]
+        named = obs.get("by_name", {}).get(col["name"])
+        if isinstance(named, dict) and "exc" in named:
+            return dict(key=f"by-name-raises:{named['exc']}", what=f"get_col_feat({col['name']!r}) raised {named['exc']}: "
+                        f"{named['msg']}")
         for i, cell in enumerate(col["cells"]):
             exp = G.expected_cell(col, cell, stats)
+            if named is not None and G.canon_sorted(named[i][0], col["stype"]) != exp:
+                return dict(key=KNOWN_MINUS_ONE if minus_one_situation(col) else f"cell-by-name:{col['stype']}",
+                            what=f"get_col_feat({col['name']!r}) row {i}: raw {cell!r} encoded as {named[i][0]}, canonical "
+                                 f"encoding is {exp}", col=col["name"], row=i)
             got = G.canon_sorted(feat[i][j], col["stype"])
             if got != exp:
                 if minus_one_situation(col):
@@ -282,6 +470,18 @@ def oracle_calendar(case, obs):
 
 
 def shrink(case):
+    if case.get("kind") == "sibling":
+        cols = case["cols"]
+        for k, c in enumerate(cols):
+            if len(cols) > 1 and c["name"] != case["target"]:
+                yield dict(case, cols=cols[:k] + cols[k + 1:], col_order=[n for n in case["col_order"] if n != c["name"]])
+        if case["n_b"] > 1:
+            for k in range(case["n_b"]):
+                yield dict(case, n_b=case["n_b"] - 1,
+                           cols=[dict(c, cells_b=c["cells_b"][:k] + c["cells_b"][k + 1:]) for c in cols])
+        if case["index_b"] != "range":
+            yield dict(case, index_b="range")
+        return
     if case.get("kind") == "calendar":
         for k in range(len(case["cells"])):
             yield dict(case, cells=case["cells"][:k] + case["cells"][k + 1:])
@@ -301,6 +501,10 @@ def shrink(case):
 
 
 def nontrivial_sig(case, obs):
+    if case.get("kind") == "sibling":
+        return json.dumps(["sibling", case["n_a"], case["n_b"], case["index_b"], case["target"] is not None,
+                           [(c["stype"], c["dtype_a"], c["dtype_b"], [v is None for v in c["cells_b"]])
+                            for c in case["cols"]]])
     if case.get("malformed"):
         return json.dumps(["malformed", case["malformed"], case["n"], case["index"], bool(obs.get("ok"))])
     if not obs.get("ok"):
@@ -322,6 +526,22 @@ def stats(cases, obss):
         if c.get("kind") == "calendar":
             d["calendar_instants"] = d.get("calendar_instants", 0) + len(c["cells"])
             continue
+        if c.get("kind") == "sibling":
+            d["sibling"] = d.get("sibling", 0) + 1
+            d.setdefault("sibling_dtypes", {})
+            for col in c["cols"]:
+                if col["stype"] == "categorical":
+                    k = f"{col['dtype_a']}->{col['dtype_b']}" + ("/target" if col["name"] == c["target"] else "")
+                    d["sibling_dtypes"][k] = d["sibling_dtypes"].get(k, 0) + 1
+            if not (o.get("ok") and o["col_stats"]["ok"] and o["converter"]["ok"]):
+                d["raised"] += 1
+            continue
+        if c.get("family"):
+            d["family"] = d.get("family", 0) + 1
+            embs = [x["name"] for x in c["cols"] if x["stype"] == "embedding"]
+            kids = [x["name"] for x in c["cols"] if x["stype"] in ("text_embedded", "image_embedded")]
+            if embs and kids and max(embs) > min(kids):
+                d["family_embedding_after_child"] = d.get("family_embedding_after_child", 0) + 1
         if c.get("malformed"):
             d["malformed"] = d.get("malformed", 0) + 1
             d["malformed_raised"] = d.get("malformed_raised", 0) + (0 if o.get("ok") else 1)
@@ -330,6 +550,8 @@ def stats(cases, obss):
         if not o.get("ok"):
             d["raised"] += 1
         for col in c["cols"]:
+            if col["name"] == c["target"] and any(v is None for v in col["cells"]):
+                d["unlabeled_target_frames"] = d.get("unlabeled_target_frames", 0) + 1
             if col.get("int_tokens"):
                 d["int_token_columns"] = d.get("int_token_columns", 0) + 1
                 d["minus_one_columns"] = d.get("minus_one_columns", 0) + (1 if minus_one_situation(col) else 0)
@@ -354,6 +576,29 @@ def coq_term(case, obs):
     """Model/Mapper.v pipelines (through Converter.encode_col) and the canonical
     cell encoding of Model/MapperSpec.v evaluated on every column of the frame and
     compared with the cells the implementation produced."""
+    if case.get("kind") == "sibling":
+        if not (obs.get("ok") and obs["col_stats"]["ok"] and obs["converter"]["ok"]):
+            return None
+        lab = G.index_labels(case["index_b"], case["n_b"]) or list(range(case["n_b"]))
+        parts = []
+        for tag in ("col_stats", "converter"):
+            tfj = obs[tag]["tf"]
+            for col in sibling_cols(case):
+                stats = dict(obs["stats_a"].get(col["name"], {}))
+                if "COUNT" in stats:      # 1.0 and 1 are the same category value
+                    stats["COUNT"] = [[int(v) if isinstance(v, float) and v == int(v) else v for v in stats["COUNT"][0]],
+                                      stats["COUNT"][1]]
+                raw = M.rawcol(col, stats)
+                is_int = M.is_int_stype(col["stype"])
+                if col["name"] == case["target"]:
+                    cells = [[v] for v in tfj["y"]]
+                else:
+                    loc = locate(tfj, col)
+                    if loc is None:
+                        return "false"
+                    cells = column_cells(tfj, loc, col["stype"], case["n_b"])
+                parts.append(f"check_col pval_eqb idx ({raw}) {M.plist(cells, lambda c: M.pecell(c, is_int))}")
+        return f"(let idx := {M.plist(lab, M.ppval)} in " + " && ".join(parts) + ")"
     if case.get("malformed") and not obs.get("ok"):
         bad = case["cols"][1]
         if case["malformed"] == "missing-embedding-cell":
@@ -371,7 +616,7 @@ def coq_term(case, obs):
     for col in case["cols"]:
         st = col["stype"]
         stats = obs["stats"].get(col["name"], {})
-        raw = M.rawcol(col, stats, parsed=obs["parsed"].get(col["name"]))
+        raw = M.rawcol(col, stats, parsed=obs["parsed"].get(col["name"]), embedded=obs.get("embedded", {}).get(col["name"]))
         is_int = M.is_int_stype(st)
         if col["name"] == case["target"]:
             if tfj["y"] is None:
@@ -384,10 +629,15 @@ def coq_term(case, obs):
             cells = column_cells(tfj, loc, st, case["n"])
         obs_cells = M.plist(cells, lambda c: M.pecell(c, is_int))
         if minus_one_situation(col):
-            # known finding: the faithful pipeline reproduces the implementation, and both differ from the spec
-            parts.append(f"(check_pipeline pval_eqb idx ({raw}) {obs_cells} && spec_differs ({raw}) {obs_cells})")
+            # known finding (integer token -1 aliases the missing marker): nothing is demanded of the
+            # implementation on such a column -- a harmless rewrite may alias differently, or not at all --
+            # so it takes no part in the correspondence; the oracle classifies it under the known-finding key
+            # and Props/C01.v `multicategorical_minus_one_refuted` records what the current pipeline does.
+            continue
         else:
             parts.append(f"check_col pval_eqb idx ({raw}) {obs_cells}")
+    if not parts:
+        return None
     return f"(let idx := {M.labels_of(case)} in " + " && ".join(parts) + ")"
 
 
@@ -402,7 +652,7 @@ def sanity(cases, obss):
     frames = sum(d["index"].values())
     if frames and (d["raised"] - d.get("malformed_raised", 0)) > 0.05 * frames:
         probs.append("more than 5 % of the well-formed frames raise")
-    for st in STYPES:
+    for st in STYPES + ["text_embedded", "image_embedded"]:
         if d["stypes"].get(st, 0) == 0:
             probs.append(f"stype {st} never drawn")
     for k in ("range", "offset", "perm", "string", "dup"):
@@ -411,7 +661,14 @@ def sanity(cases, obss):
     for k in ("object", "str", "float", "datetime64"):
         if d["dtypes"].get(k, 0) == 0:
             probs.append(f"dtype {k} never drawn")
-    for k in ("multicat_sep", "multicat_list", "int_token_columns", "calendar_instants", "malformed"):
+    for a in INT_DTYPES:
+        for b in INT_DTYPES:
+            if d.get("sibling_dtypes", {}).get(f"{a}->{b}", 0) + d.get("sibling_dtypes", {}).get(f"{a}->{b}/target", 0) == 0:
+                probs.append(f"sibling history with integer categories held as {a} then {b} never drawn")
+    if not any(k.endswith("/target") for k in d.get("sibling_dtypes", {})):
+        probs.append("sibling history with an integer-coded target never drawn")
+    for k in ("multicat_sep", "multicat_list", "int_token_columns", "calendar_instants", "malformed", "sibling",
+              "family", "family_embedding_after_child", "unlabeled_target_frames"):
         if d.get(k, 0) == 0:
             probs.append(f"{k} never drawn")
     if d["cells"] and not (0.05 < d["missing_cells"] / d["cells"] < 0.6):
